@@ -151,7 +151,7 @@ def gen_lines(rng, query_names):
             if name == 'format':
                 val = rng.choice(['text', 'csv', 'csv', 'json', 'TEXT', '']) if rr < 0.8 else None
             elif name == 'nullvalue':
-                val = rng.choice(['NULL', '-', 'n/a', '', '0']) if rr < 0.8 else None
+                val = rng.choice(['NULL', '-', 'n/a', '', '0', ' n/a ', '  ', ' x', 'y ', 'two words']) if rr < 0.8 else None
             else:
                 val = rng.choice(TRUE_WORDS + FALSE_WORDS + BAD_BOOL) if rr < 0.85 else None
             dot = '.' if rng.random() < 0.85 else ''
